@@ -3,6 +3,7 @@ package c18
 import (
 	"context"
 	"fmt"
+	"sort"
 	"runtime"
 	"sync"
 	"sync/atomic"
@@ -139,7 +140,8 @@ func (w *world) probeConns(k int) {
 	w.mu.Lock()
 	var ucs []*upConn
 	for _, uc := range w.conns {
-		if (k < 0 || uc.tuple == k) && uc.acked && !uc.closed && !uc.dropped {
+		// a reader that stands still in a blocked handler cannot answer a ping either: nothing to learn there
+		if (k < 0 || uc.tuple == k) && uc.acked && !uc.closed && !uc.dropped && !w.readerBlockedConn(uc) {
 			ucs = append(ucs, uc)
 		}
 	}
@@ -511,7 +513,7 @@ func (o *outcome) burst() {
 			go func() {
 				defer cw.Done()
 				if gated {
-					w.wait(watch, 0, func() bool { return st.returned || st.seen > 0 || w.pendingInit(k) })
+					w.wait(watch, 0, func() bool { return st.returned || st.seen > 0 || w.pendingInit(k) || st.cancelIssued })
 					time.Sleep(settle)
 				}
 				w.endSub(i, true, s.Deadline, false)
@@ -520,7 +522,7 @@ func (o *outcome) burst() {
 			cw.Add(1)
 			go func() {
 				defer cw.Done()
-				w.wait(watch, 0, func() bool { return len(st.msgs) >= s.At || st.terminalAt() >= 0 || (st.returned && st.err != nil) })
+				w.wait(watch, 0, func() bool { return len(st.msgs) >= s.At || st.terminalAt() >= 0 || (st.returned && st.err != nil) || st.cancelIssued })
 				w.endSub(i, true, s.Deadline, false)
 			}()
 		}
@@ -751,6 +753,10 @@ func (o *outcome) abandon(k, keep int) bool {
 			cands = append(cands, st)
 		}
 	}
+	// Most recently started first: when a dial is abandoned, closing its done channel readies the waiters in
+	// queue order and the scheduler runs the last one readied first, so the youngest waiter usually wins the
+	// race for the next dial. Any order is sound; this one wastes the fewest expendable callers.
+	sort.Slice(cands, func(a, b int) bool { return cands[a].startSeq > cands[b].startSeq })
 	n0 := w.initCount(k)
 	gateOpen := w.gateOpen[k]
 	w.mu.Unlock()
@@ -772,7 +778,7 @@ func (o *outcome) abandon(k, keep int) bool {
 		if !o.expect(fmt.Sprintf("Subscribe of sub %d returns after it was cancelled during the dial", st.i), func() bool { return st.returned && st.cancelDone }) {
 			return false
 		}
-		if w.wait(2*settle, 0, gone) {
+		if w.wait(settle, 0, gone) {
 			hit = true
 			break
 		}
